@@ -500,11 +500,19 @@ def gen_spec(rng, typ=None, N=None, clean=False):
             "margin_state": margin_state}
 
 
+def other_votes(N, t):
+    """votes for the third candidate: every remaining card, or (every other tally) only half of them — the rest are
+    under-votes, cards that appear in no candidate's tally; the cards without a vote for winner or loser are N - n0 - nb
+    either way"""
+    rest = N - t[0] - t[1]
+    return rest if (t[0] + t[1]) % 2 == 0 else rest // 2
+
+
 def build_asn(spec, alpha, con=None):
     A = AU()
     if con is None:
         t = spec["tally"]
-        tally = None if t in (None, "none") else ({} if t == "empty" else {"W": t[1], "L": t[0], "O": spec["N"] - t[0] - t[1]})
+        tally = None if t in (None, "none") else ({} if t == "empty" else {"W": t[1], "L": t[0], "O": other_votes(spec["N"], t)})
         con = A.Contest(id="c", name="c", risk_limit=float(alpha), cards=spec["N"],
                         choice_function=(A.Contest.SOCIAL_CHOICE_FUNCTION.IRV if spec["irv"] else A.Contest.SOCIAL_CHOICE_FUNCTION.PLURALITY),
                         n_winners=1, candidates=["W", "L", "O"], winner=["W"], audit_type=spec["typ"], tally=tally, use_style=False)
@@ -1235,7 +1243,7 @@ def retarget_asn(a, spec, alpha):
     con.cards = spec["N"]
     con.audit_type = spec["typ"]
     t = spec["tally"]
-    con.tally = None if t is None else {"W": t[1], "L": t[0], "O": spec["N"] - t[0] - t[1]}
+    con.tally = None if t is None else {"W": t[1], "L": t[0], "O": other_votes(spec["N"], t)}
     a.margin = float(spec["m"])
     a.assorter.upper_bound = float(spec["ub"])
     if getattr(a, "_kind", None) == spec["cfg"]["kind"] and rng_flag[0]:
